@@ -343,7 +343,7 @@ def chk_codec(case):
                 out.append(("C17/codec/inv/aliased-result", f"the parsed inv (count={n}) changed after parsing another inv payload"))
     elif t == "addr":
         n = case["count"]
-        items = [(case["time"] + i, ((i + 1) % 2 ** 64).to_bytes(8, "little"),
+        items = [((case["time"] + i) % 2 ** 32, ((i + 1) % 2 ** 64).to_bytes(8, "little"),
                   bytes(10) + b"\xff\xff" + bytes([10, 0, i % 256, 1]), (case["port"] + i) % 65536) for i in range(n)]
         nets = [lib(p2p.network_ip_addr, *it) for it in items]
         if any(i[0] != "ok" for i in nets):
@@ -631,7 +631,10 @@ def gen_codec(tier):
                 "msg_tx"]:
         for n in [0, 1, 2, 252, 253] + ([65536] if tier == "thorough" else []):
             yield {"type": "inv", "type_id": tid, "count": n}
-    for n in [0, 1, 2, 252, 253, 1000]:
+    # one entry beyond the list limits other node software applies (inv 50 000, addr 1 000)
+    yield {"type": "inv", "type_id": "msg_tx", "count": 50001}
+    yield {"type": "inv", "type_id": "msg_tx", "count": 50000}
+    for n in [0, 1, 2, 252, 253, 1000, 1001, 2500]:
         for tm in (0, 1700000000, 2 ** 32 - 1001):
             for port in (0, 8333, 65535):
                 yield {"type": "addr", "count": n, "time": tm, "port": port}
